@@ -1,6 +1,7 @@
 package verifharness
 
 import (
+	"bytes"
 	"crypto/tls"
 	"fmt"
 	"sync"
@@ -35,6 +36,11 @@ func worldHTTPPlugins(w *World) {
 	scfg := map[string]any{"bindAddr": "10.0.0.1", "bindPort": 7000, "vhostHTTPPort": 8080, "vhostHTTPSPort": 8443,
 		"auth": map[string]any{"token": token}, "transport": map[string]any{"tcpMux": tcpMux},
 		"allowPorts": []map[string]any{{"start": 20000, "end": 20009}}}
+	// C05 batch: everything that crosses the path between frpc and frps is recorded
+	var tap *simnet.Tap
+	if w.In.Property == "C05" {
+		tap = w.Net.TapListener("10.0.0.1:7000", 64<<20)
+	}
 	if _, err := w.StartFrps(w.Frps, scfg); err != nil {
 		w.Fail("frps: %v", err)
 	}
@@ -141,6 +147,28 @@ func worldHTTPPlugins(w *World) {
 	case <-time.After(10 * time.Minute):
 		hw.viol("progress", "stall", "http traffic through plugin %s did not finish within 10 simulated minutes", kind)
 		return
+	}
+	if tap != nil {
+		// a proxy that asks for encryption gets it whatever plugin serves it: no request or response text on the path
+		time.Sleep(time.Second)
+		var wire []byte
+		for _, id := range tap.Conns() {
+			wire = append(wire, tap.Stream(id, 0)...)
+			wire = append(wire, 0)
+			wire = append(wire, tap.Stream(id, 1)...)
+			wire = append(wire, 0)
+		}
+		tlsOn := w.KnobBool("tls", 50)
+		w.Probe("wire.client_plugin_proxy")
+		if enc || tlsOn {
+			w.Check("C05.proxy-encryption-hides-payload")
+			for _, mk := range []string{"X-Case", "HTTP/1.1", "a.example.test"} {
+				if bytes.Contains(wire, []byte(mk)) {
+					w.Violate("C05", "encryption", "payload-in-clear-with-proxy-encryption", "%s proxy served by client plugin %s with useEncryption=%v (transport tls=%v): request/response text (%q) crossed the path between frpc and frps in clear", front, kind, enc, tlsOn, mk)
+					break
+				}
+			}
+		}
 	}
 	w.SetSample(map[string]any{"plugin": kind, "front": front, "cases": cid, "rewrite_host": rewriteHost, "set_req": setReq})
 	w.Nontrivial()
